@@ -46,6 +46,7 @@ type callout struct {
 	skip     bool
 	ttl      int64
 	detached bool
+	phase    int    // 1 = the real operation has been performed, its answer is held back (late answer)
 	ctxObs   string // builder: what the context looked like
 	resume   chan *directive
 	ack      chan struct{} // closed by the resumed goroutine once it has left park()
@@ -55,7 +56,8 @@ type callout struct {
 }
 
 type directive struct {
-	fault  int // backend call: inject this error token instead of performing the operation (0 = perform)
+	fault  int  // backend call: inject this error token instead of performing the operation (0 = perform)
+	late   bool // backend call: perform the operation now, deliver its answer only after another resume
 	bOK    bool
 	bVal   int
 	bErr   int
@@ -93,11 +95,26 @@ func (s *sched) park(co *callout) *directive {
 	return <-co.resume
 }
 
+// parkLate is called by the goroutine after it performed the real backend operation: the answer is delivered to the frontend
+// only when the scheduler resumes the goroutine once more, so that other goroutines can run between effect and answer.
+func (s *sched) parkLate(co *callout) {
+	co.phase = 1
+	co.resume = make(chan *directive)
+	co.ack = make(chan struct{})
+	s.mu.Lock()
+	s.parked[co.tid] = co
+	s.mu.Unlock()
+	<-co.resume
+	close(co.ack)
+}
+
 // resumeWith hands the directive to the parked goroutine and returns once that goroutine has left park(), so that the
 // stack-based quiescence test cannot mistake it for still being parked.
 func (s *sched) resumeWith(co *callout, d *directive) {
-	co.resume <- d
-	<-co.ack
+	// both channels are read before the hand-over: a goroutine whose answer is held back replaces them when it parks again
+	resume, ack := co.resume, co.ack
+	resume <- d
+	<-ack
 }
 
 func goid() int {
@@ -200,6 +217,10 @@ func (f *faultyRW) doRead(ctx context.Context, key []byte) (int, error) {
 			co.outcome = "err -1"
 		}
 	}
+	if d.late {
+		f.s.parkLate(co)
+		co.t0, co.t1 = now(), now() // what the frontend does with the answer happens from here on
+	}
 	return v, err
 }
 
@@ -219,6 +240,9 @@ func (f *faultyRW) doWrite(ctx context.Context, key []byte, v int) error {
 		co.outcome = "err -1"
 	} else {
 		co.outcome = "ok"
+	}
+	if d.late {
+		f.s.parkLate(co)
 	}
 	return err
 }
